@@ -8,6 +8,10 @@ Re-read from /repo's current sources on every run:
   its lock discipline from these flags, so `C20_serialisable_*` only checks while every
   writer still takes the lock;
 * whether `edit_state` is `lock { load; yield; save }`;
+* whether the lock is scoped: every mention of `self._lock` inside the class is the context
+  expression of an `async with` (no bare `.acquire()` / `.release()` / `.locked()`, no alias) --
+  the C20 cancellation theorems rest on it: a waiter cancelled while queued then leaves the lock
+  alone;
 * whether `SqliteStateStore.set_state` applies `merge_state` also when no row exists;
 * whether a shallow copy of a `DictLikeModel` owns its `_data`, and whether the path
   step helpers address a `DictLikeModel` by name before trying an integer index.
@@ -140,6 +144,22 @@ def _edit_shape(fn: ast.AST | None) -> bool:
     return kinds == ["load", "yield", "save"]
 
 
+def _lock_scoped(cls: ast.ClassDef | None) -> bool:
+    """at least one `async with self._lock`, and `self._lock` is mentioned nowhere else in the class"""
+    if cls is None:
+        return False
+    as_ctx = set()
+    for n in ast.walk(cls):
+        if isinstance(n, ast.AsyncWith):
+            for i in n.items:
+                if _is_self_lock(i.context_expr) and i.optional_vars is None:
+                    as_ctx.add(id(i.context_expr))
+    mentions = [n for n in ast.walk(cls) if _is_self_lock(n)]
+    # any other handle on the lock: getattr(self, "_lock"), self.__dict__["_lock"], vars(self)
+    indirect = [n for n in ast.walk(cls) if isinstance(n, ast.Constant) and n.value == "_lock"]
+    return bool(as_ctx) and all(id(n) in as_ctx for n in mentions) and not indirect
+
+
 def _row_none_merges(methods: dict[str, ast.AST]) -> bool:
     """the method holding the `row is None` test of set_state does not return early from that branch
     and calls merge_state after it"""
@@ -201,6 +221,11 @@ def extract(notes: list[str]) -> dict:
         r[pfx + "SetStateLocked"] = _locked(ms, "set_state")
         r[pfx + "ClearLocked"] = _locked(ms, "clear")
         r[pfx + "EditLocked"] = _edit_shape(ms.get("edit_state"))
+    r["memLockScoped"] = _lock_scoped(_class(core, "InMemoryStateStore"))
+    r["sqlLockScoped"] = _lock_scoped(_class(sq, "SqliteStateStore"))
+    for k in ("memLockScoped", "sqlLockScoped"):
+        if not r[k]:
+            notes.append(f"gen/statestore: {k}: self._lock is used other than as `async with self._lock`")
     r["sqlRowNoneMerges"] = _row_none_merges(sql)
     dl = _methods(_class(ev, "DictLikeModel"))
     owns = False
@@ -223,7 +248,7 @@ def generate(notes: list[str]) -> list[str]:
     out = ["namespace GenStateStore", f"def maxDepth : Nat := {r['maxDepth']}"]
     for k in ("memSetLocked", "memSetStateLocked", "memClearLocked", "memEditLocked", "sqlSetLocked", "sqlSetStateLocked",
               "sqlClearLocked", "sqlEditLocked", "sqlRowNoneMerges", "dictLikeCopyOwnsData", "dictLikeByName",
-              "memGetStateCopies"):
+              "memGetStateCopies", "memLockScoped", "sqlLockScoped"):
         out.append(f"def {k} : Bool := {b(r[k])}")
     out.append("end GenStateStore")
     return out
